@@ -1648,7 +1648,12 @@ impl Archive {
                 if data.len() <= 64 {
                     log::debug!("Before decrypt: {:02X?}", &data);
                 }
-                decrypt_file_data(&mut data, key);
+                decrypt_stored_data(
+                    &mut data,
+                    key,
+                    file_info.is_single_unit(),
+                    self.header.sector_size(),
+                );
                 if data.len() <= 64 {
                     log::debug!("After decrypt: {:02X?}", &data);
                 }
@@ -2120,7 +2125,12 @@ impl Archive {
                     key,
                     data.len()
                 );
-                decrypt_file_data(&mut data, key);
+                decrypt_stored_data(
+                    &mut data,
+                    key,
+                    file_info.is_single_unit(),
+                    self.header.sector_size(),
+                );
             }
 
             // Handle compression for single unit files
@@ -2746,6 +2756,19 @@ impl Archive {
                 log::debug!("Failed to read potential strong signature: {e}");
                 Ok(SignatureStatus::None)
             }
+        }
+    }
+}
+
+/// Decrypt the data of a file that has no sector offset table: a single unit is
+/// one encrypted block, otherwise every `sector_size` chunk is an independent
+/// block encrypted with `key + sector_index`.
+fn decrypt_stored_data(data: &mut [u8], key: u32, single_unit: bool, sector_size: usize) {
+    if single_unit {
+        decrypt_file_data(data, key);
+    } else {
+        for (i, sector) in data.chunks_mut(sector_size).enumerate() {
+            decrypt_file_data(sector, key.wrapping_add(i as u32));
         }
     }
 }
